@@ -26,6 +26,11 @@ def prompt(tier):
         jobs = [{"id": i, "line": chars(c["ps"]), "shv": {"a": VA, "a7": VW}} for i, c in enumerate(cases)]
         res = inproc_map("prompt", jobs, timeout=30, env={"VIRTUAL_ENV": ""})
         for c, j, o in zip(cases, jobs, res):
+            # (CmdOut of the model is empty: a `$(..)` whose content is an arithmetic line is a runnable command - the calculator
+            # answers it - and is outside the enumeration's assumption)
+            m = re.search(r"\$\(([^)]*)\)", j["line"])
+            if m and re.search(r"[0-9]", m.group(1)) and re.search(r"[-+*/^]", m.group(1)):
+                continue
             n += 1
             want = chars(c["text"])
             got = o.get("prompt")
